@@ -243,6 +243,20 @@ Section Jwt.
   Definition rs_verify (card : list pubkey) : Z -> bytes -> jres token :=
     decode_and_verify (rs_verifier card).
 
+  (** [DecodeAndVerify] with a verifier supplied by the caller that answers
+      [vres] whatever it is shown ([None]: no error; a nil verifier behaves
+      like one that never objects). *)
+  Definition any_verify (vres : option jerr) : Z -> bytes -> jres token :=
+    decode_and_verify (fun _ _ => vres).
+
+  (** The card is an interface: fetching the identity can fail
+      ([publicKeyFromCard] returns the error, and no key is found). *)
+  Definition rs_verifier_fetch (ocard : option (list pubkey)) (t : token) (now : Z) : option jerr :=
+    match ocard with
+    | Some card => rs_verifier card t now
+    | None => if negb (beq_bytes (h_alg (t_header t)) alg_rs256) then Some EAlg else Some ENoKey
+    end.
+
   (** [VerifySelfToken]. *)
   Definition self_verify (card : list pubkey) (user host : bytes) (now : Z) (tok : bytes) : jres token :=
     match rs_verify card now tok with
@@ -253,6 +267,18 @@ Section Jwt.
         | None => JOk t
         end
     end.
+
+  Definition self_verify_fetch (ocard : option (list pubkey)) (user host : bytes) (now : Z) (tok : bytes)
+    : jres token :=
+    match decode_and_verify (rs_verifier_fetch ocard) now tok with
+    | JErr e => JErr e
+    | JOk t =>
+        match check_claims (t_claims t) (mkC self_iss [] host 0 0 [] user) with
+        | Some e => JErr e
+        | None => JOk t
+        end
+    end.
+
   (** ** Signing side: [simpleCore.Sign]'s choice of key (identity/simple_core.go)
 
       [privs]: the stored private keys (id, material) in order; [req]: the key id
